@@ -783,12 +783,24 @@ class AdapterLookupBase:
     def changed(self, ignored=None):
         super().changed(None)
         # Lookups running in other threads add to ``_required`` (see
-        # ``_subscribe``) while this loop runs: iterate over a snapshot.
-        for r in list(self._required):
+        # ``_subscribe``) while this loop runs, and several threads can be
+        # in here at once (the lookups of a verifying registry call
+        # ``changed()`` themselves): take the recorded subscriptions one by
+        # one, so that each is cancelled exactly once.
+        required = self._required
+        while required:
+            try:
+                r, _ = required.popitem()
+            except KeyError:
+                # Emptied by another thread doing the same.
+                break
             r = r()
             if r is not None:
-                r.unsubscribe(self)
-        self._required.clear()
+                try:
+                    r.unsubscribe(self)
+                except KeyError:
+                    # Cancelled by a thread that raced us.
+                    pass
 
     # Extendors
     # ---------
